@@ -110,7 +110,7 @@ pub fn c16(fx: &mut Fx) {
         }
     }
     for tail in strings_upto(&alpha_u, if fx.thorough { 4 } else { 3 }) {
-        for pre in [&b"http://"[..], b"http:/", b"https://", b"HTTP://", b"/http://"] {
+        for pre in [&b"http://"[..], b"http:/", b"https://", b"HTTP://", b"Http://", b"hTTp://", b"/http://"] {
             let mut u = pre.to_vec();
             u.extend(&tail);
             fx.push(json!({"e": "abspath", "uri": obs::bytes(&u)}));
@@ -335,7 +335,9 @@ pub fn c17(fx: &mut Fx) {
         let k = fx.rng.gen_range(0..=5);
         let routes: Vec<Value> = (0..k)
             .map(|_| json!({"m": *methods.choose(&mut fx.rng).unwrap(), "path": obs::bytes(*paths.choose(&mut fx.rng).unwrap()),
-                            "code": *[200u64, 204, 404, 500].choose(&mut fx.rng).unwrap()}))
+                            "code": *[200u64, 204, 404, 500].choose(&mut fx.rng).unwrap(),
+                            "ctype": *["json", "json", "text"].choose(&mut fx.rng).unwrap(),
+                            "server": *["", "", "handler-own-id"].choose(&mut fx.rng).unwrap()}))
             .collect();
         let mut requests = vec![];
         for _ in 0..8 {
@@ -364,6 +366,15 @@ pub fn c17(fx: &mut Fx) {
 // C03 (function level): arbitrary bytes into every public parsing entry point
 // ---------------------------------------------------------------------------------------
 pub fn c03fn(fx: &mut Fx) {
+    // URI path extraction on every UTF-8 shape of authority and path (scheme prefixes x tails)
+    let alpha_u: Vec<&[u8]> = vec![b"h", b":", b"/", b"a", b"%", "\u{e9}".as_bytes(), "\u{20ac}".as_bytes(), "\u{1f600}".as_bytes()];
+    for tail in strings_upto(&alpha_u, if fx.thorough { 5 } else { 4 }) {
+        for pre in [&b"http://"[..], b"/", b"http:/"] {
+            let mut u = pre.to_vec();
+            u.extend(&tail);
+            fx.push(json!({"e": "abspath", "uri": obs::bytes(&u)}));
+        }
+    }
     let n = if fx.thorough { 20000 } else { 2000 };
     let o = Opts::default();
     for i in 0..n {
